@@ -19,7 +19,7 @@ from mc.engine import Exc
 from models import fixref as M
 
 ID = "C04"
-BUDGET = {"quick": 900, "thorough": 5400}
+BUDGET = {"quick": 900, "thorough": 7200}
 CASE_TIMEOUT = 900
 
 TOL = 1e-9
@@ -89,10 +89,10 @@ CORR_ENDS = [(), ("gc", "edge", "rmask")]
 COLSETS = {"both": ("gc", "rmask"), "none": (), "gc": ("gc",), "rmask": ("rmask",)}
 
 
-RULERS = [260, 330, 420, 540, 720, 1000]  # isolated tiles: edge value -125/size, a ruler for the values of the tiles under test
+RULERS = [265, 330, 425, 550, 725, 1010]  # isolated tiles: edge value -125/size, a ruler for the values of the tiles under test
 EDGE_GRID = {
-    "quick": {"a": [60, 120, 200, 250, 300, 480], "b": [70, 130, 210, 260, 310, 500], "g1": [0, 40, 100, 180, 249, 250, 300], "g2": [200, 400]},
-    "thorough": {"a": [30, 60, 90, 120, 160, 200, 249, 250, 300, 480], "b": [35, 70, 100, 130, 170, 210, 251, 260, 310, 500],
+    "quick": {"a": [60, 120, 200, 250, 300, 480], "b": [70, 130, 210, 270, 310, 500], "g1": [0, 40, 100, 180, 249, 250, 300], "g2": [200, 400]},
+    "thorough": {"a": [30, 60, 90, 120, 160, 200, 249, 250, 300, 480], "b": [35, 70, 100, 130, 170, 210, 251, 270, 310, 500],
                  "g1": [-20, 0, 1, 40, 100, 140, 180, 220, 249, 250, 300], "g2": [200, 249, 400]},
 }
 
@@ -226,8 +226,8 @@ def variants_for(spec, nt, na, nr):
 VARIANTS = {
     "none": {},
     "lite": {"tperm": "one", "rperm": "one"},
-    "std": {"scale": [0.5, 8], "tperm": "std", "aperm": "std", "bothperm": True, "rperm": "std"},
-    "rot": {"scale": [0.5, 8], "tperm": "rot", "aperm": "all", "bothperm": True, "rperm": "rot"},
+    "std": {"scale": [0.5, 3], "tperm": "std", "aperm": "std", "bothperm": True, "rperm": "std"},
+    "rot": {"scale": [0.5, 3, 8], "tperm": "rot", "aperm": "all", "bothperm": True, "rperm": "rot"},
     "tall": {"tperm": "all"},
     "aall": {"aperm": "all"},
 }
@@ -251,7 +251,7 @@ def describe(tier):
             + (" on every layout x {none, all, gc, edge} corrections; every triple of bins x 6^3 ways on layout A" if t else " on layout A x {no, all} corrections"),
             "sample": "same bins; every deletion of <= 2 bins; empty antitarget; sample variants plain / noisy (weights clipped) / one zero-depth bin",
             "corrections": "all 8 subsets of {gc, edge, rmask}; window fraction 0.5" + (" and 0.9" if t else " (0.9 on layout A)"),
-            "scales": [1, 0.5, 8],
+            "scales": [1, 0.5, 3] + ([8] if t else []),
             "row_orders": "tiny layout: all 120 orders of the target rows and all 6 of the antitarget rows; otherwise reversal, rotation by 1 and n/2, "
             "one transposition" + (", every rotation and every adjacent transposition" if t else "") + " for each of the three inputs",
             "edge_grid": "three adjacent tiles of sizes a, b, 280 with gaps g1, g2 next to six isolated ruler tiles; a x b x g1 x g2 = "
@@ -333,8 +333,8 @@ def cases(tier):
                         # empty antitarget: nothing re-sorts / re-indexes the tables after the corrections
                         yield {"check": "bad1", "layout": layout, "ref": kind, "cols": "both", "sample": "plain", "anti": "empty", "k": k, "way": way,
                                "corr": [list(c) for c in (CORR_ALL if t else [(), ("gc",), ("edge",), ("gc", "edge", "rmask")])], "frac": 0.5, "variants": "none"}
-    # 5. sample = subset of the reference bins (<= 2 deleted)
-    for layout in main:
+    # 5. sample = subset of the reference bins (<= 2 deleted); the tiny layout leaves classes of one bin
+    for layout in main + ["tiny"]:
         n = len(layout_bins(layout))
         for anti in ("full", "empty"):
             for m in (1, 2):
@@ -665,7 +665,8 @@ MANIFEST = {
     "text": "Bounded-exhaustive exploration of the real cnvlib.fix.do_fix: a family of references (three layouts in the quick tier, five in the "
     "thorough one; pooled and flat; with and without gc / rmask columns) with every single bin and every pair of bins made bad in each of six ways, "
     "every boundary value, every sample missing <= 2 bins, empty antitarget tables, every subset of the three bias corrections, depth scale factors "
-    "and row permutations of each input (all 120 orders on the 5-target layout). Each result is compared with an independent model: kept set by "
+    "and row permutations of each input (all 120 orders on the 5-target layout), and a grid of tile sizes and gaps around the insert size ranked "
+    "against isolated ruler tiles (edge covariate). Each result is compared with an independent model: kept set by "
     "coordinate, genomic order, per-class constant after replaying the corrections with an independent edge formula, centring, weight range and "
     "monotonicity, and bin-for-bin equality with the unpermuted / unscaled run. Inputs that must be refused are enumerated bin by bin. Exhaustive inside the bound.",
     "note": "Trusted: pandas/numpy; smoothing.rolling_median inside the oracle (rule 6, verified by C19). Not covered: covariate ties (seeded shuffle), "
